@@ -25,8 +25,8 @@ Definition enc_visits (o : option (list visit)) :=
 Inductive postop := PRec (op : recop) | PRecordAll (f : fields).
 
 (** (ok, names, delivered?, visits, ticks, per-post-op (ok, visits)) *)
-Definition enc_case (inv : invocation) (c : collector) (ops : list postop) :=
-  match run inv c with
+Definition enc_outcome (r : option outcome) (ops : list postop) :=
+  match r with
   | Some o =>
       (1, o_names o,
        match o_delivered o with Some _ => 1 | None => 0 end,
@@ -38,6 +38,8 @@ Definition enc_case (inv : invocation) (c : collector) (ops : list postop) :=
                                   end)) ops)
   | None => (0, [], 0, [], [], [])
   end.
+Definition enc_case (inv : invocation) (c : collector) (ops : list postop) := enc_outcome (run inv c) ops.
+Definition enc_case_log (ls : logstate) (inv : invocation) (c : collector) (ops : list postop) := enc_outcome (run_log ls inv c) ops.
 Definition enc_enabled (f : fields) (lvl : N) (c : collector) :=
   match run_enabled f lvl c with
   | Some (names, b) => (1, names, if b then 1 else 0)
@@ -50,3 +52,6 @@ Definition cE (f : fields) (lvl : N) (c : collector) :=
           * list (N * list (bytes * N * N * (N * Z * bytes * list bytes * (N * bool * N * Z))))) (enc_enabled f lvl c).
 Definition cC (inv : invocation) (c : collector) (ops : list postop) :=
   @inr (N * list bytes * N) _ (enc_case inv c ops).
+(** the same under a `log` configuration (tracing compiled with its `log` feature) *)
+Definition cL (ls : logstate) (inv : invocation) (c : collector) (ops : list postop) :=
+  @inr (N * list bytes * N) _ (enc_case_log ls inv c ops).
